@@ -85,6 +85,28 @@ impl<'a> Visitor for Enumerate<'a> {
                 }
             }
         }
+        // extreme real parts (zero, huge, tiny): the real part must still be the float result
+        // (same NaN / infinity class, otherwise a few ulp)
+        let extremes: Vec<f64> = if F::PREC == 53 { vec![0.0, -0.0, 1e-60, 1e60, -1e-60, -1e60, 1e-30, -1e30, 1e100, 1e-100] } else { vec![0.0, -0.0, 1e-12, -1e-12, 1e12, -1e12] };
+        for op in alphabet() {
+            if op.arity() == 1 {
+                for &x in &extremes {
+                    if op.in_domain(&[x]) || x == 0.0 {
+                        jobs.push((op, vec![x]));
+                    }
+                }
+            } else if op.arity() == 2 {
+                let (xs2, ys2): (Vec<f64>, Vec<f64>) = if F::PREC == 53 { (vec![0.0, 1e60, -1e-60, 1e-100], vec![1e-60, -1e60, 0.5, 1e100]) } else { (vec![0.0, 1e12, -1e-12], vec![1e-12, -1e12, 0.5]) };
+                for &x in &xs2 {
+                    for &y in &ys2 {
+                        if !op.in_domain(&[x, y]) {
+                            continue;
+                        }
+                        jobs.push((op, vec![x, y]));
+                    }
+                }
+            }
+        }
         let jobs_ref = &jobs;
         par_for(jobs.len(), self.stats, |n, st| {
             let (op, re) = &jobs_ref[n];
@@ -132,14 +154,25 @@ impl<'a> Visitor for Enumerate<'a> {
                 if a == 0 {
                     let same = r.bits() == plain.bits() || (r.is_nan() && plain.is_nan());
                     if single_call(*op) {
-                        if !same {
+                        // the property grants "a few units in the last place"; single-call
+                        // operations are bit-equal on the current tree, the check allows 4 ulp
+                        let few_ulp = (r.to64() - plain.to64()).abs() <= 8.0 * F::U * plain.to64().abs();
+                        if !same && (!few_ulp || !plain.is_finite() || !r.is_finite()) {
                             st.violation(Violation {
                                 sig: format!("{} {} re-vs-float bits", op.name(), l.type_name),
                                 case: case(),
-                                what: format!("real part {:e} but the float operation gives {:e} (must be bit-equal)", r.to64(), plain.to64()),
+                                what: format!("real part {:e} but the float operation gives {:e} (more than 4 ulp apart)", r.to64(), plain.to64()),
                             });
                             return;
                         }
+                    } else if !same && (!plain.is_finite() || !r.is_finite()) {
+                        // different class (NaN / infinity / finite)
+                        st.violation(Violation {
+                            sig: format!("{} {} re-vs-float class", op.name(), l.type_name),
+                            case: case(),
+                            what: format!("real part {:e} but the float operation gives {:e}", r.to64(), plain.to64()),
+                        });
+                        return;
                     } else if !same {
                         // reformulated operations: few ulp / bound of the defining expression
                         let vals: Vec<Val> = parts.iter().map(|p| Val::exact(p.to_jet::<DD>(l))).collect();
@@ -149,6 +182,12 @@ impl<'a> Visitor for Enumerate<'a> {
                             if x.c[0].is_finite() {
                                 tol += x.c[0].to_f64();
                             }
+                        }
+                        // extreme real parts are outside the validated range of the double-double
+                        // reference: plain relative tolerance there
+                        let extreme = re_f.iter().any(|x| *x == 0.0 || x.abs() < 1e-20 || x.abs() > 1e20);
+                        if extreme || !tol.is_finite() {
+                            tol = 32.0 * F::U * plain.to64().abs() + 4096.0 * F::TINY;
                         }
                         let diff = (r.to64() - plain.to64()).abs();
                         st.ratio(&op.name(), diff / (F::U * plain.to64().abs().max(1e-300)), || format!("{} x={:?}", l.type_name, re_f));
@@ -191,7 +230,7 @@ impl<'a> Visitor for Enumerate<'a> {
                     let a = Signed::abs(&v).parts(d);
                     let expect = if Signed::is_positive(&xf) { v.clone() } else { -v.clone() }.parts(d);
                     let s = Signed::signum(&v).re();
-                    let es = if Signed::is_positive(&xf) { 1.0 } else if xf.is_zero() { 0.0 } else { -1.0 };
+                    let es = Signed::signum(&xf).to64();
                     self.stats.evaluations += 2;
                     if a.bits() != expect.bits() || s.to64() != es {
                         self.stats.violation(Violation {
@@ -492,7 +531,7 @@ fn main() {
         mode: cli.mode,
         seed: cli.seed,
         start,
-        rule: "(a) 70 operations x every type x real grid x 11 operand-part assignments sharing the real parts (constant/absent, generic, +-inf, NaN, 1e300, -1e-300, single NaN slot): real-part bit patterns must coincide; (b) real part vs the same operation on plain floats: bit-equal for single-call operations, within the bound of the defining expression for the reformulated ones; (c) all ordered pairs of {-inf,-2,-0,+0,1,1',2,+inf,NaN} x 3x3 part variants under == != < <= > >= partial_cmp abs_diff_eq relative_eq ulps_eq and RealField min/max/clamp on the four field types (f32/f64, static/dynamic); is_zero/is_one/is_positive/is_negative/abs/signum on every type; (d) every method of the f32 and f64 instances of DualNum against std on a grid with specials. Non-trivial = operands with non-constant parts.".into(),
+        rule: "(a) 70 operations x every type x real grid x 11 operand-part assignments sharing the real parts (constant/absent, generic, +-inf, NaN, 1e300, -1e-300, single NaN slot): real-part bit patterns must coincide; (b) real part vs the same operation on plain floats: within 4 ulp for single-call operations (bit-equal on the current tree), within the bound of the defining expression for the reformulated ones; (c) all ordered pairs of {-inf,-2,-0,+0,1,1',2,+inf,NaN} x 3x3 part variants under == != < <= > >= partial_cmp abs_diff_eq relative_eq ulps_eq and RealField min/max/clamp on the four field types (f32/f64, static/dynamic); is_zero/is_one/is_positive/is_negative/abs/signum on every type; (d) every method of the f32 and f64 instances of DualNum against std on a grid with specials. Non-trivial = operands with non-constant parts.".into(),
         assumptions: vec!["on ties min/max/clamp may return either of the two equal operands".into()],
         extra: json!({"axes": axes}),
         exhaustive: true,
